@@ -22,6 +22,7 @@ package node
 //@ func (c *core) fastForward(block *hg.Block, frame *hg.Frame) error
 //@   requires c != nil && c.hg != nil && c.validator != nil && block != nil && frame != nil && len(frame.Peers) < 2147483648
 //@   requires forall r int :: __in(r, frame.PeerSets) ==> len(frame.PeerSets[r]) < 2147483648
+//@   call Reset assume[lt-cache-pure] c.hg.LtCachePure()
 //@   ensures[accept-peers-hash]  ret0 == nil ==> __seqeq(peers.PSHashOf(old(frame.Peers)), old(block.Body.PeersHash))
 //@   ensures[accept-frame-hash]  ret0 == nil ==> __seqeq(old(hg.FrameHashOf(*frame)), old(block.Body.FrameHash))
 //@   call CheckBlock assert[checked-set]     __arg(0) == block && __arg(1) == peerSet && peerSet != nil && __eq(peerSet.Peers, frame.Peers) && peerSet.WF()
